@@ -14,8 +14,9 @@ theorem shortTexts_of_right (qn : QName) (cfg : Cfg) (L R : Tree) (M : List (Nat
     (script : List Action) (final : Tree)
     (hR : ∀ x ∈ bfs R, (keys x.payload.attrs).Nodup ∧ ShortP x.payload)
     (h : scriptGen qn cfg L R M fresh = .ok (script, final)) : ∀ a ∈ script, ShortTexts a := by
-  have key := Texts.scriptGen_texts (fun t => decide ((strOf t).length ≤ TEXT_MAX)) qn cfg L R M fresh script final
-    (fun x hx => ⟨(hR x hx).1, by simpa using (hR x hx).2.1, by simpa using (hR x hx).2.2⟩) h
+  have key := Texts.scriptGen_fits (Texts.badT (fun t => decide ((strOf t).length ≤ TEXT_MAX))) (Texts.neutral_badT _) qn cfg L R M fresh script final
+    (fun x hx => ⟨(hR x hx).1, ⟨fun _ => by simpa [Texts.badT] using (hR x hx).2.1,
+      fun _ => by simpa [Texts.badT] using (hR x hx).2.2, fun _ => rfl, fun _ _ => rfl, fun _ _ => rfl⟩⟩) h
   intro a ha
   have := key a ha
   cases a <;> simp only [ShortTexts] <;> first | trivial | simpa [Texts.badT] using this
